@@ -113,4 +113,29 @@ theorem size_field_truncated : ((List.replicate 65537 (97 : UInt8)).length - 1) 
 
 end D18
 
+/-! ## D25 (found while building this check) -/
+section D25
+open Sqfs.DirWriter
+
+/-- 65536 single-entry runs (e.g. hard links alternating between two inode blocks) -/
+def manyRuns : List Run := List.replicate 65536 ⟨[⟨0, 1, 2, [97]⟩], 0, 1, 0, 0⟩
+
+/-- unrepaired `sqfs_dir_writer_create_inode`: every header gets an index entry, however many there are -/
+theorem old_index_length (ref : Nat) (runs : List Run) (n h x p : Nat) (hn : n ≥ dirIndexThreshold) :
+    (createInodeCap none ref runs n h x p).index.length = runs.length := by
+  unfold createInodeCap
+  simp [hn]
+
+/-- the u16 `inodex_count` is 0 while 65536 index entries follow the inode -/
+theorem index_count_wraps :
+    (createInodeCap none 0 manyRuns 65536 0 0xFFFFFFFF 0).indexCount = 0 ∧
+    (createInodeCap none 0 manyRuns 65536 0 0xFFFFFFFF 0).index.length = 65536 := by
+  have hl : manyRuns.length = 65536 := List.length_replicate ..
+  have hext := old_index_length 0 manyRuns 65536 0 0xFFFFFFFF 0 (by decide)
+  refine ⟨?_, by rw [hext, hl]⟩
+  unfold DirInode.indexCount
+  rw [hext, hl]
+
+end D25
+
 end Sqfs.C03.Witness
